@@ -415,9 +415,20 @@ def _check_registration(ctx: dict[str, Any]) -> None:
 
 
 # ------------------------------------------------------------------------------------------ parent side
+def _preload() -> None:
+    """Import everything the child needs in the parent, so that a forked child starts with warm modules."""
+    import bytecode  # noqa: F401
+    import pynguin.configuration  # noqa: F401
+    import pynguin.ga.coveragegoals  # noqa: F401
+    import pynguin.instrumentation.machinery  # noqa: F401
+    import pynguin.instrumentation.tracer  # noqa: F401
+    import pynguin.testcase.execution  # noqa: F401
+
+
 def evaluate_case(case: dict[str, Any], want: str) -> Outcome:
     """Run one case in a forked child and convert the result."""
     out = Outcome()
+    _preload()
     scratch = os.environ.get("VF_SCRATCH_DIR") or os.environ.get("VERIF_SCRATCH") or tempfile.gettempdir()
     os.makedirs(scratch, exist_ok=True)
     kind, val = forked(lambda: _child(case, want, scratch), CHILD_TIMEOUT)
